@@ -208,7 +208,15 @@ def check_call_sites(rep, repo, fw, wf, rf):
                 return [t]
             b1 = [x for x in branches(A1) if x not in (('list', ()), NONE)]
             b2 = [x for x in branches(A2) if x not in (('list', ()), NONE)]
-            pair_ok = bool(b1) and bool(b2) and all(any(contains(y, lambda z, x=x: z == x) for x in b1) for y in b2)
+            # (a) the two arrays are the two results of one producer call, or (b) the indicators are drawn over that very array
+            produced = set()
+            for ce, _ in iter_effects(wfx.effs):
+                if ce.kind == 'call' and ce.ret is not None:
+                    for r_ in branches(ce.ret):
+                        if r_[0] == 'tuple' and len(r_[1]) >= 2:
+                            for i_ in range(len(r_[1]) - 1):
+                                produced.add((r_[1][i_], r_[1][i_ + 1]))
+            pair_ok = bool(b1) and bool(b2) and all(any((x, y) in produced or contains(y, lambda z, x=x: z == x) for x in b1) for y in b2)
             rep.check(pair_ok, 'C13.R5', repo.method(cls, 'generate_instances').where, 'the indicator array passed for %s is the one drawn for the list array passed for %s' % (ta, la),
                       got='%s ; %s' % (show(A1)[:80] if A1 else None, show(A2)[:80] if A2 else None), want='ties drawn per list of that very array',
                       construct='writer argument pairing %s/%s' % (la, ta))
